@@ -29,6 +29,19 @@
 #include "Polygon/PolyElem.hpp"
 #include "Polygon/Polygons.hpp"
 #include "Anamorphosis/AnamHermite.hpp"
+#include "Db/Db.hpp"
+#include "Db/DbGrid.hpp"
+#include "Variogram/Vario.hpp"
+#include "Variogram/VarioParam.hpp"
+#include "Variogram/DirParam.hpp"
+#include "Model/Model.hpp"
+#include "Covariances/CovAniso.hpp"
+#include "Covariances/CovContext.hpp"
+#include "Drifts/ADrift.hpp"
+#include "Enum/ELoc.hpp"
+#include "Enum/ECov.hpp"
+#include "Enum/ECalcVario.hpp"
+#include "Enum/ELoadBy.hpp"
 #undef private
 #undef protected
 
@@ -70,6 +83,8 @@ static std::string trace_take() {
   }
   o << ")"; return o.str();
 }
+// progress marker: where a crash happened (read by the check after the process died)
+static void mark(const char* phase) { std::ofstream f(path("progress.txt")); f << phase; }
 static std::string slurp(const std::string& p) {
   std::ifstream f(p, std::ios::binary); std::ostringstream o; o << f.rdbuf(); return o.str();
 }
@@ -203,9 +218,9 @@ static Cls cls_polygons() {
     for (int i = 0; i < P->getPolyElemNumber(); i++) { if (i) s += " "; s += g_pe(&P->getPolyElem(i)); }
     return s + ")"; };
   // behaviour: inside test of a few points
-  c.X = [](const ASerializable* o) { auto P = dynamic_cast<const Polygons*>(o); std::string s = "(";
+  c.X = [](const ASerializable* o) { auto P = dynamic_cast<const Polygons*>(o); std::string s = "((";
     for (int k = 0; k < 6; k++) { VectorDouble q = { 0.37 + 1.3 * k, -0.21 + 0.9 * k }; if (k) s += " "; s += sx_b(P->inside(q, false)); }
-    return s + ")"; };
+    return s + "))"; };
   return c;
 }
 
@@ -217,7 +232,7 @@ static Cls cls_hermite() {
   c.build = [](const Sx& r) -> ASerializable* {
     int mode = (int) r[0].i();
     AnamHermite* a;
-    if (mode == 0) { a = AnamHermite::create((int) r[3].size(), r[1].b(), r[2].d(TEST)); a->setPsiHns(VD(r[3])); }
+    if (mode == 0) { a = AnamHermite::create((int) r[3].size(), r[1].b(), r[2].d(TEST)); a->setPsiHns(VD(r[3])); a->calculateMeanAndVariance(); }
     else { a = AnamHermite::create((int) r[7].i(), r[1].b(), 1.); a->fitFromArray(VD(r[3])); if (!r[2].l.empty()) a->setRCoef(r[2].d()); }
     if (!r[4].l.empty()) { VectorDouble b = VD(r[4]);
       a->setAzmin(b[0]); a->setAzmax(b[1]); a->setAymin(b[2]); a->setAymax(b[3]);
@@ -229,11 +244,196 @@ static Cls cls_hermite() {
   c.G = [](const ASerializable* o) { auto a = dynamic_cast<const AnamHermite*>(o);
     return "(" + sx_d(a->getAzmin()) + " " + sx_d(a->getAzmax()) + " " + sx_d(a->getAymin()) + " " + sx_d(a->getAymax()) + " " +
            sx_d(a->getPzmin()) + " " + sx_d(a->getPzmax()) + " " + sx_d(a->getPymin()) + " " + sx_d(a->getPymax()) + " " +
-           sx_d(a->getMean()) + " " + sx_d(a->getVariance()) + " " + sx_d(a->getRCoef()) + " " + sx_vdd(a->getPsiHns()) + ")"; };
+           sx_d(a->getMean()) + " " + sx_d(a->getVariance()) + " " + sx_d(a->getRCoef()) + " " + sx_vdd(a->_psiHn) + ")"; };
   c.X = [](const ASerializable* o) { auto a = dynamic_cast<const AnamHermite*>(o);
-    std::string s = "(" + sx_b(a->getFlagBound());
+    std::string s = "(" + sx_b(a->getFlagBound()) + " " + sx_vdd(a->getPsiHns()) + " (";
     if (a->getNbPoly() > 0) for (double y : { -1.5, 0., 0.7, 2.5 }) s += " " + sx_d(a->transformToRawValue(y));
-    return s + ")"; };
+    return s + "))"; };
+  return c;
+}
+
+
+// ------------------------------------------------------------------ Db, DbGrid
+// columns of a recipe: ((name loctype locindex values) ...), loctype -1 = none; locators are set afterwards, in the
+// order of the columns (so that e.g. z2 may come before z1)
+static std::string g_loc(const Db* db, int icol) {
+  ELoc t; int idx; db->getLocatorByColIdx(icol, &t, &idx);
+  if (t == ELoc::UNKNOWN) return "()";
+  return "(" + sx_i(t.getValue()) + " " + sx_i(idx) + ")";
+}
+static std::string g_db(const Db* db) {
+  int ncol = db->getColumnNumber(), nech = db->getSampleNumber();
+  std::string s = "(" + sx_i(nech) + " (";
+  for (int j = 0; j < ncol; j++) { if (j) s += " "; s += sx_s(db->getNameByColIdx(j)); }
+  s += ") (";
+  for (int j = 0; j < ncol; j++) { if (j) s += " "; s += g_loc(db, j); }
+  s += ") (";
+  for (int i = 0; i < nech; i++) { if (i) s += " "; s += "(";
+    for (int j = 0; j < ncol; j++) { if (j) s += " "; s += sx_d(db->getValueByColIdx(i, j)); } s += ")"; }
+  return s + "))";
+}
+static std::string x_db(const Db* db) {
+  return "(" + sx_i(db->getNDim()) + " " + sx_i(db->getSampleNumber(true)) + " " + sx_i(db->getLocNumber(ELoc::Z)) + " " + sx_i(db->getLocNumber(ELoc::X)) + ")";
+}
+static void add_cols(Db* db, const Sx& cols) {
+  std::vector<int> uids;
+  for (auto& c : cols.l) {
+    VectorDouble v = VD(c[3]);
+    int iuid = db->addColumns(v, c[0].str(), ELoc::UNKNOWN, 0);
+    uids.push_back(iuid);
+  }
+  for (size_t k = 0; k < cols.size(); k++) {
+    int t = (int) cols[k][1].i();
+    if (t >= 0 && uids[k] >= 0) db->setLocatorByUID(uids[k], ELoc::fromValue(t), (int) cols[k][2].i());
+  }
+}
+static Cls cls_db() {
+  Cls c;
+  // recipe: (nech addRank cols)
+  c.build = [](const Sx& r) -> ASerializable* {
+    int nech = (int) r[0].i();
+    Db* db = Db::createFromSamples(nech, ELoadBy::COLUMN, VectorDouble(), VectorString(), VectorString(), r[1].b());
+    add_cols(db, r[2]);
+    return db; };
+  c.load = [](const std::string& f) -> ASerializable* { return Db::createFromNF(f, false); };
+  c.G = [](const ASerializable* o) { return g_db(dynamic_cast<const Db*>(o)); };
+  c.X = [](const ASerializable* o) { return x_db(dynamic_cast<const Db*>(o)); };
+  return c;
+}
+static Cls cls_dbgrid() {
+  Cls c;
+  // recipe: (nx dx x0 angles addRank addCoor cols)
+  c.build = [](const Sx& r) -> ASerializable* {
+    DbGrid* g = DbGrid::create(VI(r[0]), VD(r[1]), VD(r[2]), VD(r[3]), ELoadBy::COLUMN, VectorDouble(), VectorString(), VectorString(), r[4].b(), r[5].b());
+    if (g != nullptr) add_cols(g, r[6]);
+    return g; };
+  c.load = [](const std::string& f) -> ASerializable* { return DbGrid::createFromNF(f, false); };
+  c.G = [](const ASerializable* o) { auto g = dynamic_cast<const DbGrid*>(o);
+    std::string s = "((";
+    for (int d = 0; d < g->getNDim(); d++) { if (d) s += " ";
+      s += "(" + sx_i(g->getNX(d)) + " " + sx_d(g->getX0(d)) + " " + sx_d(g->getDX(d)) + " " + sx_d(g->getAngle(d)) + ")"; }
+    return s + ") " + g_db(g) + ")"; };
+  // behaviour: coordinates of the last node, rank of a point
+  c.X = [](const ASerializable* o) { auto g = dynamic_cast<const DbGrid*>(o);
+    std::string s = "(" + x_db(g) + " (";
+    int n = g->getSampleNumber();
+    if (n > 0 && g->getNDim() > 0 && g->getGrid().getNTotal() == n) { VectorDouble x(g->getNDim()); g->getGrid().rankToCoordinatesInPlace(n - 1, x); for (size_t k = 0; k < x.size(); k++) { if (k) s += " "; s += sx_d(x[k]); } }
+    return s + "))"; };
+  return c;
+}
+
+// ------------------------------------------------------------------ Vario
+static std::string g_vario(const Vario* v) {
+  int nvar = v->getVariableNumber(), ndir = v->getDirectionNumber();
+  std::string s = "(" + sx_i(v->_varioparam.getDimensionNumber()) + " " + sx_i(nvar) + " " + sx_d(v->getScale()) + " " + sx_b(v->getFlagAsym()) + " " + sx_vs(v->getVariableNames()) + " (";
+  for (int i = 0; i < nvar; i++) { if (i) s += " "; s += "(";
+    for (int j = 0; j < nvar; j++) { if (j) s += " "; s += sx_d(v->getVar(i, j)); } s += ")"; }
+  s += ") (";
+  for (int d = 0; d < ndir; d++) {
+    const DirParam& dp = v->getDirParam(d);
+    if (d) s += " ";
+    s += "(" + sx_b(dp.getFlagRegular()) + " " + sx_i(dp.getLagNumber()) + " " + sx_i(dp.getOptionCode()) + " " + sx_d(dp.getTolCode()) + " " + sx_d(dp.getDPas()) + " " + sx_d(dp.getTolDist()) + " ";
+    s += sx_vi(dp.getGrincrs()) + " " + sx_d(dp.getTolAngle()) + " " + sx_vdd(dp.getCodirs()) + " (";
+    for (int i = 0; i < v->getDirSize(d); i++) { if (i) s += " "; s += "(" + sx_d(v->getSwByIndex(d, i)) + " " + sx_d(v->getHhByIndex(d, i)) + " " + sx_d(v->getGgByIndex(d, i)) + ")"; }
+    s += "))";
+  }
+  return s + "))";
+}
+static Cls cls_vario() {
+  Cls c;
+  // recipe: (ndim nvar calcul scale dates nech coords(by dim) values(by var) dirs nas)
+  //   dir = (kind npas dpas toldis tolang optcode idate bench cylrad tolcode breaks codir grincr)   kind 0: free, 1: on a grid
+  //   nas = ((idir i which) ...) results set to TEST afterwards;  grid recipes give nx instead of coords
+  c.build = [](const Sx& r) -> ASerializable* {
+    int ndim = (int) r[0].i(), nvar = (int) r[1].i();
+    space(ndim);
+    Db* db = nullptr; DbGrid* grid = nullptr;
+    bool ongrid = false; for (auto& d : r[8].l) if (d[0].i() == 1) ongrid = true;
+    VectorDouble dates = VD(r[4]);
+    VarioParam vp(r[3].d(TEST), dates);
+    if (ongrid) {
+      VectorInt nx = VI(r[6]);
+      grid = DbGrid::create(nx);
+      for (int k = 0; k < nvar; k++) grid->addColumns(VD(r[7][k]), "v" + std::to_string(k + 1), ELoc::Z, k);
+      db = grid;
+    } else {
+      int nech = (int) r[5].i();
+      db = Db::createFromSamples(nech, ELoadBy::COLUMN, VectorDouble(), VectorString(), VectorString(), false);
+      for (int k = 0; k < ndim; k++) db->addColumns(VD(r[6][k]), "x" + std::to_string(k + 1), ELoc::X, k);
+      for (int k = 0; k < nvar; k++) db->addColumns(VD(r[7][k]), r[7][k].size() ? ("var" + std::to_string(k + 1)) : "e", ELoc::Z, k);
+    }
+    for (auto& d : r[8].l) {
+      if (d[0].i() == 1) { DirParam dp(grid, (int) d[1].i(), VI(d[12]), nullptr); vp.addDir(dp); }
+      else { DirParam dp((int) d[1].i(), d[2].d(TEST), d[3].d(TEST), d[4].d(TEST), (int) d[5].i(), (int) d[6].i(), d[7].d(TEST), d[8].d(TEST), d[9].d(TEST), VD(d[10]), VD(d[11]), TEST, nullptr); vp.addDir(dp); }
+    }
+    Vario* v = Vario::computeFromDb(vp, db, ECalcVario::fromValue((int) r[2].i()));
+    if (v != nullptr) for (auto& t : r[9].l) {
+      int idir = (int) t[0].i(), i = (int) t[1].i(), w = (int) t[2].i();
+      if (idir < v->getDirectionNumber() && i < v->getDirSize(idir)) {
+        if (w == 0) v->setSwByIndex(idir, i, TEST); else if (w == 1) v->setHhByIndex(idir, i, TEST); else v->setGgByIndex(idir, i, TEST); }
+    }
+    delete db;
+    return v; };
+  c.load = [](const std::string& f) -> ASerializable* { return Vario::createFromNF(f, false); };
+  c.G = [](const ASerializable* o) { return g_vario(dynamic_cast<const Vario*>(o)); };
+  c.X = [](const ASerializable* o) { auto v = dynamic_cast<const Vario*>(o);
+    std::string s = "(" + sx_i(v->getCalcul().getValue()) + " " + sx_vdd(v->getDates()) + " (";
+    for (int d = 0; d < v->getDirectionNumber(); d++) { const DirParam& dp = v->getDirParam(d); if (d) s += " ";
+      s += "(" + sx_d(dp.getBench()) + " " + sx_d(dp.getCylRad()) + " " + sx_i(dp.getIdate()) + " " + sx_vdd(dp.getBreaks()) + ")"; }
+    return s + "))"; };
+  return c;
+}
+
+// ------------------------------------------------------------------ Model
+static std::string g_model(const Model* m) {
+  int ndim = m->getDimensionNumber(), nvar = m->getVariableNumber();
+  std::string s = "(" + sx_i(ndim) + " " + sx_i(nvar) + " " + sx_d(m->getField()) + " (";
+  for (int ic = 0; ic < m->getCovaNumber(); ic++) {
+    const CovAniso* cv = m->getCova(ic);
+    if (ic) s += " ";
+    s += "(" + sx_i(cv->getType().getValue()) + " " + sx_d(cv->getParam()) + " ";
+    s += (cv->hasRange() ? sx_vdd(cv->getRanges()) : std::string("()")) + " (";
+    for (int i = 0; i < ndim; i++) for (int j = 0; j < ndim; j++) { if (i + j) s += " "; s += sx_d(cv->getAnisoRotMat(j, i)); }
+    s += ") (";
+    for (int i = 0; i < nvar; i++) { if (i) s += " "; s += "(";
+      for (int j = 0; j < nvar; j++) { if (j) s += " "; s += sx_d(cv->getSill(i, j)); } s += ")"; }
+    s += "))";
+  }
+  s += ") (";
+  for (int k = 0; k < m->getDriftNumber(); k++) { if (k) s += " "; s += sx_s(m->getDrift(k)->getDriftName()); }
+  s += ") " + sx_vdd(m->getMeans()) + " (";
+  for (int i = 0; i < nvar; i++) { if (i) s += " "; s += "(";
+    for (int j = 0; j < nvar; j++) { if (j) s += " "; s += sx_d(m->getCovar0(i, j)); } s += ")"; }
+  return s + "))";
+}
+static Cls cls_model() {
+  Cls c;
+  // recipe: (ndim nvar field covs drifts means covar0)    cov = (type range param ranges sills angles)   drifts = (order nfex)
+  c.build = [](const Sx& r) -> ASerializable* {
+    int ndim = (int) r[0].i(), nvar = (int) r[1].i();
+    space(ndim);
+    CovContext ctxt(nvar, ndim);
+    Model* m = Model::create(ctxt);
+    for (auto& cv : r[3].l)
+      m->addCovFromParam(ECov::fromValue((int) cv[0].i()), cv[1].d(TEST), 1., cv[2].d(TEST), VD(cv[3]), VD(cv[4]), VD(cv[5]), true);
+    if (!r[4].l.empty()) m->setDriftIRF((int) r[4][0].i(), (int) r[4][1].i());
+    if (!r[2].l.empty()) m->setField(r[2].d());
+    if (!r[5].l.empty()) m->setMeans(VD(r[5]));
+    if (!r[6].l.empty()) m->setCovar0s(VD(r[6]));
+    return m; };
+  c.load = [](const std::string& f) -> ASerializable* { return Model::createFromNF(f, false); };
+  c.G = [](const ASerializable* o) { return g_model(dynamic_cast<const Model*>(o)); };
+  // behaviour: value of the model at a few lags, angles of each structure
+  c.X = [](const ASerializable* o) { auto m = dynamic_cast<const Model*>(o);
+    int ndim = m->getDimensionNumber(), nvar = m->getVariableNumber();
+    std::string s = "((";
+    bool first = true;
+    if (m->getCovaNumber() > 0)
+      for (int k = 0; k < 3; k++) { VectorDouble dir(ndim, 0.); dir[k % ndim] = 1.; if (ndim > 1) dir[(k + 1) % ndim] = 0.5 * k;
+        for (double h : { 0.3, 2.1 }) for (int i = 0; i < nvar; i++) { if (!first) s += " "; first = false; s += sx_d(m->evalIvarIpas(h, dir, i, (i + k) % nvar)); } }
+    s += ") (";
+    for (int ic = 0; ic < m->getCovaNumber(); ic++) { if (ic) s += " "; s += sx_vdd(m->getCova(ic)->getAnisoAngles()); }
+    return s + "))"; };
   return c;
 }
 
@@ -242,6 +442,7 @@ static std::map<int, Cls>& classes() {
   if (m.empty()) {
     m[1] = cls_unique(); m[2] = cls_bench(); m[3] = cls_cell(); m[4] = cls_moving(); m[5] = cls_table();
     m[6] = cls_polyline(); m[7] = cls_polyelem(); m[8] = cls_polygons(); m[9] = cls_hermite();
+    m[10] = cls_db(); m[11] = cls_dbgrid(); m[12] = cls_vario(); m[13] = cls_model();
   }
   return m;
 }
@@ -255,14 +456,20 @@ static std::string run(const Sx& c) {
     Cls& K = it->second;
     std::string fa = path("a.nf"), fb = path("b.nf");
     std::remove(fa.c_str()); std::remove(fb.c_str());
+    mark("build");
     ASerializable* A = K.build(c[2]);
     if (A == nullptr) return "(-995 0)";
+    mark("getters");
     std::string G0 = K.G(A), X0 = K.X(A);
+    mark("dump");
     trace_start(); bool okd = A->dumpToNF(fa, false); std::string tw = trace_take();
     std::string fileA = slurp(fa);
+    mark("reload");
     trace_start(); ASerializable* B = K.load(fa); std::string tr = trace_take();
     std::string G1 = "()", X1 = "()", fileB;
-    if (B != nullptr) { G1 = K.G(B); X1 = K.X(B); B->dumpToNF(fb, false); fileB = slurp(fb); }
+    mark("getters-after-reload");
+    if (B != nullptr) { G1 = K.G(B); X1 = K.X(B); mark("dump-again"); B->dumpToNF(fb, false); fileB = slurp(fb); }
+    mark("done");
     o << "(" << sx_b(okd) << " " << sx_s(fileA) << " " << sx_b(B != nullptr) << " " << G0 << " " << X0 << " " << G1 << " " << X1 << " "
       << sx_s(fileB) << " " << tw << " " << tr << " " << sx_b(hook_present()) << ")";
     delete A; delete B;
@@ -287,6 +494,20 @@ static std::string run(const Sx& c) {
     o << "(" << sx_b(okd) << " " << sx_b(m != nullptr) << " " << sx_b(exists) << ")";
     delete n; delete m;
     ASerializable::unsetContainerName(); ASerializable::unsetPrefixName();
+  } else if (kind == 5) {
+    // which covariance types have a range / a third parameter: ((type hasRange hasParam) ...)
+    space(2);
+    CovContext ctxt(1, 2);
+    o << "(";
+    auto it = ECov::getIterator(); bool first = true;
+    while (it.hasNext()) {
+      ECov t = *it; it.toNext();
+      if (t == ECov::UNKNOWN || t == ECov::FUNCTION) continue;
+      CovAniso cv(t, ctxt);
+      if (!first) o << " "; first = false;
+      o << "(" << t.getValue() << " " << (cv.hasRange() ? 1 : 0) << " " << (cv.hasParam() ? 1 : 0) << ")";
+    }
+    o << ")";
   } else return "(-996 1)";
   return o.str();
 }
